@@ -38,6 +38,7 @@ var c16Projects = []struct{ Name, Text string }{
 	{"two-path-directives-both-with-or-rules", "JSIGHT 0.3\nURL /cats/{id}\n  Path\n  {\n    \"id\": \"tom\" // {or: [\"string\", {type: \"integer\", min: 1}]}\n  }\n  GET /cats/{id}/toys/{toy}\n    Path\n    {\n      \"toy\": 1 // {or: [{type: \"integer\"}, \"string\"]}\n    }\n    200 any\nURL /dogs/{d}/x/{e}\n  Path\n  {\n    \"d\": 1 // {or: [{type: \"integer\"}, {type: \"boolean\"}]}\n  }\n  GET\n    Path\n    {\n      \"e\": \"s\" // {or: [{type: \"string\"}, {type: \"float\"}]}\n    }\n    200 any\n"},
 	{"two-path-directives-or-rule", "JSIGHT 0.3\nURL /a/{x}/b/{y}\n  Path\n  {\"x\": 1}\n  GET\n    Path\n    {\n      \"y\": 1 // {or: [{type: \"integer\"}, {type: \"string\"}]}\n    }\n    200 any\n"},
 	{"same-code-responses-with-annotations", "JSIGHT 0.3\nTAG @t\nTAG @u\nGET /r\n  Tags @u @t\n  200 // first\n  { // root note one\n    \"a\": 1\n  }\n  200 // second\n  { // root note two\n    \"b\": 2\n  }\n  404 any // none\n"},
+	{"padded-title-and-annotations", "JSIGHT 0.3\nINFO\n  Title \"  Cats API  \"\n  Version \" 1 \"\nSERVER @s //   padded   \n  BaseUrl \" http://x \"\nGET /a //  two  blanks \n  200 any\n"},
 	{"regex-heavy", "JSIGHT 0.3\nTYPE @r1 regex\n/[0-9a-f]{8}-[0-9a-f]{4}/\nTYPE @r2 regex\n/(foo|bar|baz){2,4}[x-z]*/\nGET /r\n  200 @r1\n  201 @r2\n  202 regex\n  /\\w+@\\w+\\.com/\n"},
 }
 
